@@ -524,6 +524,16 @@ class World:
             t_take -= vclock._EPOCH_TS
             deadline = t_take + m.params.execution_timeout.total_seconds()
             expect[id_] = (t_take, deadline)
+        # ids sitting in the local prefetch queue of a live consumer (harness observation of client-side state)
+        prefetched_live = set()
+        for c in self.cons:
+            if c.started and not c.finished and not c.dead:
+                lq = getattr(getattr(c.obj, "queue", None), "_queue", None) or []
+                for item in list(lq):
+                    try:
+                        prefetched_live.add(item[0].id_)
+                    except Exception:  # noqa: BLE001
+                        pass
         conn = await self.conn(f"maint{self.n_maint}")
         await self.settle()
         await asyncio.sleep(0.01)
@@ -547,7 +557,8 @@ class World:
                 # timed out: whoever held it has lost it.  If that was a *live* client (or a live consumer's prefetch
                 # queue) the old copy can still be handed over / acted upon: remember it for the double-delivery facts
                 holder_live = m.holder is not None and not self.cons[m.holder].dead
-                prefetch_live = m.holder is None and not any(c.dead and c.queue == m.queue for c in self.cons)
+                prefetch_live = m.holder is None and (
+                    not any(c.dead and c.queue == m.queue for c in self.cons) or id_ in prefetched_live)
                 if holder_live or prefetch_live:
                     m.reclaimed_live = True
                 if m.holder is not None:
